@@ -74,7 +74,7 @@ def parse_trace(out):
 
 
 def check(module, cfg, tag, workers=16, coverage=False, dump=False, env=None, timeout=3600,
-          view_deadlock=False, extra=()):
+          view_deadlock=False, extra=(), allow_incomplete=False):
     """Exhaustive model checking of spec/<module>.tla with spec/<cfg>."""
     wd = _workdir(tag)
     args = ['tlc', '-workers', str(workers), '-metadir', os.path.join(wd, 'meta'), '-noGenerateSpecTE',
@@ -113,7 +113,7 @@ def check(module, cfg, tag, workers=16, coverage=False, dump=False, env=None, ti
         r.violated, r.kind = 'Deadlock', 'deadlock'
     if r.violated:
         r.trace = parse_trace(out)
-    elif 'Model checking completed. No error has been found' not in out:
+    elif 'Model checking completed. No error has been found' not in out and not (allow_incomplete and 'VERDICT' in out):
         raise TLCError('TLC did not complete (%s/%s):\n%s' % (module, cfg, out[-4000:]))
     return r
 
